@@ -791,8 +791,13 @@ def _one_pass(ctx: Ctx, g: Gen, r, sizes, first: bool):
             wl.append(c)
     wl.sort(key=lambda c: (c["kind"] not in ("corpus", "replay"), len(c["s"])))
     bchunk = 60
-    bpay = [{"wheres": [c["s"] for c in wl[i:i + bchunk]], "bind": {"d": 1, "ids": [1, 2], "names": ["g", "r"], "b": 2, "x": 1}} for i in range(0, len(wl), bchunk)]
+    # the expensive strings (long, many IN items under NOT: the CNF blow-up) are spread over the chunks round-robin instead of
+    # ending up together in the last one, so that no single worker carries the tail of the stage
+    nch = max(1, -(-len(wl) // bchunk))
+    bown = [wl[k::nch] for k in range(nch)]
+    bpay = [{"wheres": [c["s"] for c in own], "bind": {"d": 1, "ids": [1, 2], "names": ["g", "r"], "b": 2, "x": 1}} for own in bown]
     bres = parallel_workers("c14_impl", "butler_batch", bpay, timeout=900)
+    slow = []
     parsed = {c["s"]: rec for c, rec in zip(cases, recs) if rec is not None}
     for k, (st, out) in enumerate(bres):
         if st == "hang":
@@ -801,9 +806,10 @@ def _one_pass(ctx: Ctx, g: Gen, r, sizes, first: bool):
         if st != "ok":
             ctx.tie_broken("harness", "butler_batch", str(out)[-800:])
             continue
-        for c, rec in zip(wl[k * bchunk:(k + 1) * bchunk], out["results"]):
+        for c, rec in zip(bown[k], out["results"]):
             s = c["s"]
             ctx.count()
+            slow.append((rec.get("seconds", 0), s))
             prec = parsed.get(s, {})
             for api in ("query_data_ids", "query_dimension_records"):
                 o = rec[api]
@@ -825,7 +831,9 @@ def _one_pass(ctx: Ctx, g: Gen, r, sizes, first: bool):
             if "exc" in prec and (lg["ok"] or lg["cls"] != "InvalidQuery"):
                 ctx.oracle_fail(f"legacy-syntax:{lg.get('type', 'accepted')}", {"where": s, "legacy": lg},
                                 "legacy registry.queryDataIds did not report a syntax error as a user expression error")
-    ctx.log(f"butler: {len(wl)} where strings through 3 query interfaces")
+    slow.sort(reverse=True)
+    ctx.log(f"butler: {len(wl)} where strings through 3 query interfaces; total {sum(t for t, _ in slow):.0f} s of queries, slowest "
+            + "; ".join(f"{t:.1f}s {s_[:60]!r}" for t, s_ in slow[:3]))
 
 
 # --------------------------------------------------------------------------------------------------
